@@ -55,7 +55,7 @@ def gen(
     conds=(1.0, 1e2),
     info_kinds=("spd", "spd", "blockdiag", "diag"),
     world=(1.0,),
-    features=("parallel", "reversed", "permute", "ids", "multifixed", "custom", "rn_lm_offsets", "quat-signs", "lm_odo"),
+    features=("parallel", "reversed", "permute", "ids", "multifixed", "custom", "rn_lm_offsets", "quat-signs", "lm_odo", "pure-translation-steps"),
     fixed_mode="wellposed",
     rot_step=1.0,
     custom_flavour="ana",
@@ -91,6 +91,9 @@ def gen(
     for i in range(1, npose):
         par = i - 1 if tree == "chain" else rnd.randrange(i)
         step = _small_transform(g, base, w, rot_step)
+        if "pure-translation-steps" in features and base in ("se2", "se3") and rnd.random() < 0.25:
+            # a translating platform: consecutive poses share their rotation exactly
+            step = list(step[: R.PDIM[base]]) + list(R.identity(base)[R.PDIM[base]:])
         if base in ("r2", "r3"):
             truth.append([a + b for a, b in zip(truth[par], step)])
         else:
@@ -259,8 +262,23 @@ def _sym(g, n, cond, kind):
 
 
 # ----------------------------------------------------------------------------- materialised case -> live graph
+def _layout(info, how):
+    """The same matrix values in another memory layout (the library must treat its inputs as read-only values)."""
+    if how == "F":
+        return np.asfortranarray(info)
+    if how == "strided":
+        big = np.zeros((2 * info.shape[0], 2 * info.shape[1]))
+        big[::2, ::2] = info
+        return big[::2, ::2]
+    if how == "readonly":
+        out = info.copy()
+        out.setflags(write=False)
+        return out
+    return info
+
+
 def build_edge(e):
-    info = np.array(e["info"], dtype=np.float64)
+    info = _layout(np.array(e["info"], dtype=np.float64), e.get("layout", "C"))
     t = e["t"]
     if t == "odo":
         return gs.EdgeOdometry(list(e["ids"]), info, gs.mk_pose(e["z"]))
